@@ -54,6 +54,32 @@ def _observable(key):
     return _OBS[key]
 
 
+INPUT_KINDS = ["bytes", "bytes", "bytearray", "memoryview", "bytes", "memoryview-signed", "memoryview-char", "memoryview-ctypes", "bytes"]
+
+
+def input_object(b: bytes, kind: str):
+    """the same octets as another legal buffer object: bytes, bytearray, memoryview (format 'B'), memoryview over array('b') (format 'b':
+    items are SIGNED), memoryview cast to 'c' (items are bytes objects), memoryview over a ctypes c_ubyte array (format '<B')"""
+    if kind == "bytearray":
+        return bytearray(b)
+    if kind == "memoryview":
+        return memoryview(bytes(b))
+    if kind == "memoryview-signed":
+        import array
+        a = array.array("b", bytes(len(b)))
+        memoryview(a).cast("B")[:] = b
+        return memoryview(a)
+    if kind == "memoryview-char":
+        return memoryview(bytes(b)).cast("c")
+    if kind == "memoryview-ctypes":
+        import ctypes
+        return memoryview((ctypes.c_ubyte * len(b)).from_buffer_copy(b)) if b else memoryview(b"")
+    return bytes(b)
+
+
+import guard  # noqa: E402
+
+
 class Impl:
     def __init__(self):
         self.sessions = {}
@@ -267,7 +293,9 @@ class Impl:
                                                              "controls": (ctrls, [])}))
             return s.search_result_done(c["id"], sansldap.LDAPResultCode(c["code"]), C.untx(c["mdn"]), C.untx(c["diag"]), ctrls)
         if k == "receive":
-            return s.receive(C.unhx(c["chunk"]))
+            # the chunk is handed over as one of the buffer kinds a transport may use (all accepted by receive): the kinds rotate per Impl
+            self._rx = getattr(self, "_rx", 0) + 1
+            return s.receive(input_object(C.unhx(c["chunk"]), INPUT_KINDS[self._rx % len(INPUT_KINDS)]))
         if k == "drain":
             return s.data_to_send(c.get("amount"))
         if k == "register":
@@ -282,7 +310,7 @@ class Impl:
 
     def outcome(self, s, c):
         try:
-            r = self.call(s, c)
+            r = guard.guarded(lambda: self.call(s, c), 20.0)
         except sansldap.ProtocolError as e:
             return {"k": "ProtocolError", "resp": self.notification_kind(e.response)}, e
         except sansldap.LDAPError as e:
